@@ -6,47 +6,7 @@ From PV Require Import Heap Values ValuesProofs Mutation.
 Import ListNotations.
 Open Scope nat_scope.
 
-(* ------------------------------------------------------------------ deepcopy only appends *)
-Lemma copy_ops_m_extends : forall ops h m h2 m2 r', copy_ops_m h m ops = Some (h2, m2, r') -> extends h h2.
-Proof.
-  induction ops as [|[oid vs] ops IH]; intros h m h2 m2 r' H; cbn in H.
-  - injection H as <- _ _. apply extends_refl.
-  - destruct (mget oid m).
-    + destruct (copy_ops_m h m ops) as [[[h3 m3] r3]|] eqn:E; [|discriminate]. injection H as <- _ _. eauto.
-    + destruct (lookup h oid) as [[n e dd| |]|]; try discriminate.
-      destruct (copy_ops_m (h ++ [OOp n e dd]) ((oid, List.length h) :: m) ops) as [[[h3 m3] r3]|] eqn:E; [|discriminate].
-      injection H as <- _ _. eapply extends_trans; [apply extends_app|eauto].
-Qed.
-Lemma copy_node_m_extends h m nid h2 m2 nid' : copy_node_m h m nid = Some (h2, m2, nid') -> extends h h2.
-Proof.
-  unfold copy_node_m. destruct (mget nid m).
-  - intros [= <- _ _]. apply extends_refl.
-  - destruct (lookup h nid) as [[|ops|]|]; try discriminate.
-    destruct (copy_ops_m h m ops) as [[[h3 m3] r3]|] eqn:E; [|discriminate]. intros [= <- _ _].
-    eapply extends_trans; [eapply copy_ops_m_extends; eauto|apply extends_app].
-Qed.
-Lemma copy_children_extends f : (forall h m c h2 m2 c', f h m c = Some (h2, m2, c') -> extends h h2) ->
-  forall ch h m h2 m2 ch', copy_children f h m ch = Some (h2, m2, ch') -> extends h h2.
-Proof.
-  intros Hf. induction ch as [|[n c] ch IH]; intros h m h2 m2 ch' H; cbn in H.
-  - injection H as <- _ _. apply extends_refl.
-  - destruct (f h m c) as [[[h1 m1] c1]|] eqn:E; [|discriminate].
-    destruct (copy_children f h1 m1 ch) as [[[h3 m3] r3]|] eqn:E2; [|discriminate]. injection H as <- _ _.
-    eapply extends_trans; eauto.
-Qed.
-Lemma copy_circ_extends d : forall h m c h2 m2 c', copy_circ d h m c = Some (h2, m2, c') -> extends h h2.
-Proof.
-  induction d as [|d IH]; intros h m c h2 m2 c' H; cbn in H.
-  - destruct (mget c m); [injection H as <- _ _; apply extends_refl|].
-    destruct (lookup h c) as [[| |ch es]|]; try discriminate.
-    destruct (copy_children copy_node_m h m ch) as [[[h3 m3] r3]|] eqn:E; [|discriminate]. injection H as <- _ _.
-    eapply extends_trans; [eapply copy_children_extends; [|eauto]|apply extends_app].
-    intros. eapply copy_node_m_extends; eauto.
-  - destruct (mget c m); [injection H as <- _ _; apply extends_refl|].
-    destruct (lookup h c) as [[| |ch es]|]; try discriminate.
-    destruct (copy_children (copy_circ d) h m ch) as [[[h3 m3] r3]|] eqn:E; [|discriminate]. injection H as <- _ _.
-    eapply extends_trans; [eapply copy_children_extends; [|eauto]|apply extends_app]. exact IH.
-Qed.
+(* ------------------------------------------------------------------ deepcopy only appends (copy_*_extends: ValuesProofs) *)
 Lemma deepcopy_heap_extends d r h : extends h (deepcopy_heap d r h).
 Proof.
   unfold deepcopy_heap. destruct (copy_circ d h [] r) as [[[h' m'] c']|] eqn:E; [|apply extends_refl].
